@@ -328,6 +328,13 @@ ITER_STUBS = {"h3Index": ["cellToLatLng", "cellToBoundary", "latLngToCell"], "po
 
 def iter_glue_jobs():
     js = []
+    for tres in (1, 6, 15):
+        us = {"iterStepChild.0": 4, "cellToChildren.0": 9, "_ipow.0": 6}
+        for k in range(8):
+            us["harness.%d" % k] = 17
+        j = J("fulliter_t%d" % tres, "C07_fulliter.c", ["-DTRES=%d" % tres], unwind=17, us=us, stubs={"polyfill": ["iterInitPolygonCompact", "iterStepPolygonCompact", "iterDestroyPolygonCompact"]}, est=60, mem="M", timeout=1500, tier=("quick" if tres != 6 else "thorough"),
+              bound="full polygon iterator over any sequence of <= 2 compact cells of res %d or %d" % (tres - 1, tres))
+        js += with_witness(j, tier=j["tier"]) if tres == 1 else [j]
     for (cres, tres, t) in ((0, 0, "quick"), (0, 1, "quick"), (1, 1, "quick"), (2, 3, "quick"), (3, 3, "thorough"), (5, 6, "thorough"), (14, 15, "thorough"), (15, 15, "thorough")):
         us = {"iterStepPolygonCompact.0": 6, "nextCell.0": tres + 2, "ref_next.0": 17, "idx_of.0": 5, "id_of.0": 5}
         for k in range(8):
